@@ -199,7 +199,11 @@ def run(job, seed):
             # ... and the alias in every spelling
             # ... and leaves of OTHER kinds whose text after the colon is the
             # new policy's name (a role that happens to be called like it)
-            for c in ovr + alias_spellings(new1) + [O, N, 'role:%s' % new1]:
+            # ... and the OLD default spelled differently (in parentheses,
+            # with a trailing blank; '@' for the empty one): an override
+            respelled = ['(%s)' % O, O + ' '] if O else ['@']
+            for c in ovr + alias_spellings(new1) + [O, N, 'role:%s' % new1] \
+                    + respelled:
                 if c not in old_choices:
                     old_choices.append(c)
         for end, new_ovr, old_ovr, loc, noise in itertools.product(
